@@ -269,13 +269,13 @@ func (rp *replayer) goLit(v *sx, t types.Type) (string, error) {
 			return fmt.Sprintf("gvcPtr[%s](%s)", q(u.Elem()), s), nil
 		}
 	case *types.Slice:
-		// (mk_Sl arr off len nil)
-		if v.list != nil && len(v.list) == 5 {
-			if v.list[4].atom == "true" {
+		// (mk_Sl arr len nil)
+		if v.list != nil && len(v.list) == 4 {
+			if v.list[3].atom == "true" {
 				return "nil", nil
 			}
-			off, ok1 := modelInt(v.list[2])
-			ln, ok2 := modelInt(v.list[3])
+			off, ok1 := big.NewInt(0), true
+			ln, ok2 := modelInt(v.list[2])
 			if ok1 && ok2 && ln.IsInt64() && ln.Int64() <= 64 {
 				def, stores, ok := arrayModel(v.list[1])
 				if ok {
@@ -451,7 +451,7 @@ func (rp *replayer) printerFor(t types.Type) (string, error) {
 			return "", err
 		}
 		zero := rp.vc.zeroTerm(s.Fields[0].Sort)
-		body = fmt.Sprintf(`a := %q; for i, e := range v { a = fmt.Sprintf("(store %%s %%d %%s)", a, i, %s(e)) }; return fmt.Sprintf("(%s %%s 0 %%d %%v)", a, len(v), v == nil)`, zero.S, ep, s.Ctor)
+		body = fmt.Sprintf(`a := %q; for i, e := range v { a = fmt.Sprintf("(store %%s %%d %%s)", a, i, %s(e)) }; return fmt.Sprintf("(%s %%s %%d %%v)", a, len(v), v == nil)`, zero.S, ep, s.Ctor)
 	case *types.Map:
 		kp, err := rp.printerFor(u.Key())
 		if err != nil {
